@@ -7,13 +7,13 @@ from harness.rfhist import Run, RETRY, RETHROW, IGNORE, NEXT
 META = dict(
     level='model_checking',
     level_text='bounded histories of one execution through the real ResponseFuture over real pools: the order of responses, timer firings, executor tasks and connection failures, the kind of each response and every retry decision are symbolic choices; z3 decides each path; after the history every outstanding request is answered (late responses) and the outcome count and result() are checked',
-    level_note='task-level schedules (callbacks run atomically); transport, timers, executor faked; histories bounded',
+    level_note='task-level schedules (callbacks run atomically), plus one pre-emption by the delivering thread at any lock acquire/release of add_callback/add_errback (job callback-race); transport, timers, executor faked; histories bounded',
     technique='symbolic execution (sx proxies) of the real ResponseFuture/HostConnection/Connection code over solver-enumerated event and decision sequences + z3 validity per path',
     bounds=dict(quick='2-3 hosts, <= 2 speculative executions, <= 2 policy consultations, responses {rows, read-timeout error, syntax error}, histories of <= 4 events then drain',
                 thorough='3 hosts, <= 2 speculative executions, <= 3 policy consultations, + unavailable/overloaded responses, histories of <= 6 events then drain'),
     assumptions=['each stream is answered at most once by the server'],
     stubs=['transport/timers/executor: harness kit', 'codec: identity', 'retry policy: decision oracle (every decision explored)'],
-    outside=['callbacks that raise', 'registering callbacks concurrently with completion (add_callback race)', 'paging (C18), re-prepare (C19)'],
+    outside=['callbacks that raise', 'pre-emption inside lock-free regions other than the sync points of add_callback/add_errback', 'paging (C18), re-prepare (C19)'],
 )
 
 
@@ -56,6 +56,50 @@ def h_history(V, steps=4, spec=0, hosts=2, responses=('rows', 'read_timeout', 's
     V.tag('outcome', kind)
 
 
+def h_callback_race(V):
+    """callbacks registered while the response (or an error, or the client timeout) is being delivered by another
+    thread: every sync point of add_callback / add_errback / add_callbacks (before taking and after releasing the
+    callback lock) is a point where the delivering thread may run; each registered function runs exactly once"""
+    from harness import kit
+    from harness.rfworld import RFWorld
+    from cassandra.protocol import SyntaxException
+    world = RFWorld(V, n_hosts=1)
+    rf = world.new_future(1)
+    rf.send_request()
+    kind = V.pick('completion', ['rows', 'error', 'client-timeout'])
+    when = V.pick('registered', ['before-completion', 'during', 'after-completion'])
+
+    def deliver(*a):
+        if kind == 'client-timeout':
+            rf._on_timeout()
+        else:
+            c, stream, tag, m = world.pending()[0]
+            world.respond(c, stream, world.rows(1) if kind == 'rows' else SyntaxException(0x2000, 'bad', None))
+
+    calls = []
+    cb = lambda r: calls.append(('cb', r))
+    eb = lambda e: calls.append(('eb', e))
+    pre = kit.Preempter(V, ('add_callback', 'add_errback', 'add_callbacks'), deliver) if when == 'during' else (lambda *a: None)
+    rf._callback_lock = kit.SchedLock('callback_lock', pre)
+    api = V.pick('api', ['add_callbacks', 'add_callback-then-add_errback'])
+    if when == 'after-completion':
+        deliver()
+    if api == 'add_callbacks':
+        rf.add_callbacks(cb, eb)
+    else:
+        rf.add_callback(cb)
+        rf.add_errback(eb)
+    delivered_in_between = when == 'during' and pre.used > 0
+    if when == 'before-completion' or (when == 'during' and not delivered_in_between):
+        deliver()
+    V.tag('scenario', '%s/%s/%s/%s' % (kind, when, api, getattr(pre, 'log', None)))
+    want = 'cb' if kind == 'rows' else 'eb'
+    got = [c[0] for c in calls]
+    V.check(got.count(want) == 1, 'registered-function-runs-exactly-once', note='%s ran %d times (%r)' % (want, got.count(want), got))
+    V.check(got.count('cb' if want == 'eb' else 'eb') == 0, 'only-the-matching-function-runs', note=repr(got))
+    V.check(len(rf.results) + len(rf.errors_seen) == 1, 'never-more-than-one-outcome')
+
+
 def jobs(tier):
     th = tier == 'thorough'
     steps = 6 if th else 4
@@ -67,4 +111,5 @@ def jobs(tier):
             js.append(Job('spec%d-f%d' % (spec, first), 'h_history',
                           dict(steps=steps, spec=spec, hosts=3 if (th or spec == 2) else 2, responses=resp, calls=3 if th else 2),
                           dict(o, pin={'ev0': first})))
+    js.append(Job('callback-race', 'h_callback_race', {}))
     return js
